@@ -15,18 +15,21 @@ Section C15.
   Variable derive : base -> pos -> pos -> geom.
   Variable f_eq f_class : factory.
   Variable b : base.
+  Variable skeleton : opts -> base.
   Hypothesis create_idem : forall s, create f_eq (dict (create f_eq s)) = create f_eq s.
 
-  (* for EVERY finite history of redistributePoints(s) / calculateRZ() / geometry() calls after a build with settings s0: no call raises, and
+  (* (the skeleton -- separatrix contours and the orthogonal spacing functions stored at construction -- does not read the nonorthogonal_* options: regenerated flag
+     skeleton_ignores_nonorthogonal_settings, false on the pinned tree for 'poloidal_orthogonal_combined', finding F24)
+     for EVERY finite history of redistributePoints(s) / calculateRZ() / geometry() calls after a build with settings s0: no call raises, and
      what a final geometry() shows (R-Z arrays and derived geometry) is what it shows on a mesh built from scratch with the settings last given *)
   Theorem C15_history_independent : forall s0 ops,
-    let hist := run settings opts factory base pos geom create dict place stale derive f_eq f_class b ops
-                    (build settings opts factory base pos geom create dict place f_eq f_class b s0) in
-    observe opts base pos geom derive b hist
-      = observe opts base pos geom derive b (Some (build settings opts factory base pos geom create dict place f_eq f_class b (last_settings settings s0 ops)))
-    /\ observe opts base pos geom derive b hist <> None.
+    let hist := run settings opts factory base pos geom create dict place stale derive f_eq f_class ops
+                    (build settings opts factory base pos geom create dict place f_eq f_class b skeleton s0) in
+    observe opts base pos geom derive hist
+      = observe opts base pos geom derive (Some (build settings opts factory base pos geom create dict place f_eq f_class b skeleton (last_settings settings s0 ops)))
+    /\ observe opts base pos geom derive hist <> None.
   Proof.
-    intros s0 ops hist. apply (history_independent settings opts factory base pos geom create dict place stale derive f_eq f_class b create_idem).
+    intros s0 ops hist. apply (history_independent settings opts factory base pos geom create dict place stale derive f_eq f_class b skeleton create_idem).
     vm_compute. reflexivity.
   Qed.
 End C15.
